@@ -73,9 +73,15 @@ PLAN = {
     "C19": {"quick": [{"engine": "E7", "params": {"min_T": 120}, "cases": 160, "timeout": 1200},
                       # in-process only (run twice + unmonitored), the run ends wherever the spec's own T falls: state left
                       # behind by a run that stops in the middle of an operation must not leak into the next run
-                      {"engine": "E7", "params": {"children": 0, "templates": ["packunpack", "splitline", "pack", "diamond", "fanin", "line"]}, "cases": 1200, "timeout": 1200}],
+                      {"engine": "E7", "params": {"children": 0, "templates": ["packunpack", "splitline", "pack", "diamond", "fanin", "line"]}, "cases": 1200, "timeout": 1200},
+                      # store level: the same E1 client history (forgetful clients: freed tokens and items, addresses re-used) twice in one
+                      # interpreter and in a fresh one; the operation logs must be identical
+                      {"engine": "E7", "params": {"stores": 1}, "cases": 1200, "timeout": 1200},
+                      {"engine": "E7", "params": {"stores": 1, "kinds": ["rprs", "rrs", "filter", "filter_td"], "profiles": ["hoarder", "cancel_storm"]}, "cases": 1600, "timeout": 1200}],
             "thorough": [{"engine": "E7", "params": {"min_T": 120}, "cases": 3200, "timeout": 6000},
-                         {"engine": "E7", "params": {"children": 0, "templates": ["packunpack", "splitline", "pack", "diamond", "fanin", "line"]}, "cases": 32000, "timeout": 6000}]},
+                         {"engine": "E7", "params": {"children": 0, "templates": ["packunpack", "splitline", "pack", "diamond", "fanin", "line"]}, "cases": 32000, "timeout": 6000},
+                         {"engine": "E7", "params": {"stores": 1}, "cases": 24000, "timeout": 6000},
+                         {"engine": "E7", "params": {"stores": 1, "kinds": ["rprs", "rrs", "filter", "filter_td"], "profiles": ["hoarder", "cancel_storm"]}, "cases": 32000, "timeout": 6000}]},
     "C12": {"quick": [{"engine": "E4", "params": {}, "cases": 12000}, {"engine": "E4", "params": {"aligned": 1, "kind": "cont_nacc"}, "cases": 6000}, {"engine": "E4", "params": {"mixed": 1, "kind": "cont_nacc"}, "cases": 3000}, {"engine": "E4", "params": {"ragged": 1, "kind": "cont_nacc"}, "cases": 320}, e3(4000, templates=["line", "fanin", "diamond"]), e1(6000, kinds=["belt_nacc", "belt_acc", "slotbelt"], profiles=["slow_consumer", "mixed", "full_store", "burst", "hoarder"])],
             "thorough": [{"engine": "E4", "params": {}, "cases": 240000}, {"engine": "E4", "params": {"aligned": 1, "kind": "cont_nacc"}, "cases": 60000}, {"engine": "E4", "params": {"mixed": 1, "kind": "cont_nacc"}, "cases": 30000}, {"engine": "E4", "params": {"ragged": 1}, "cases": 3200}, e3(40000), e1(60000, kinds=["belt_nacc", "belt_acc", "slotbelt"], profiles=["slow_consumer", "mixed", "full_store", "burst", "hoarder"])]},
     "C13": {"quick": [{"engine": "E4", "params": {}, "cases": 12000}, {"engine": "E4", "params": {"aligned": 1, "kind": "cont_nacc"}, "cases": 6000}, {"engine": "E4", "params": {"mixed": 1, "kind": "cont_nacc"}, "cases": 3000}, e3(4000, templates=["line", "fanin", "diamond"]), e1(6000, kinds=["belt_nacc", "belt_acc", "slotbelt"], profiles=["slow_consumer", "mixed", "full_store", "burst", "hoarder"])],
@@ -108,7 +114,7 @@ RULES = {
     "C16": "E3 pack / pack-unpack / pack-pack factories (recipes [1,1] [1,2] [1,3,1] [1,1,2], zeros in recipes) and closed loops (a finite population of pallets and items packed, unpacked and fed back, lap after lap); non-trivial = >=3 pallets checked at the combiner's out-edge; distinct by spec hash",
     "C17": "E3 random factories finalised at T (round, non-round, inside set-up, before the first item); non-trivial = a node spent time in >=3 distinct states; distinct by spec hash",
     "C18": "E3 random factories + E1 store histories; non-trivial = >=20 items received and an edge whose occupancy changed >=10 times (E3) / >=6 occupancy changes (E1)",
-    "C19": "E7: E3 model specs (>=120 time units) each run twice in one interpreter, once unmonitored, and in 2 fresh interpreters with PYTHONHASHSEED 1 / 4242 and different heap pre-fill; "
+    "C19": "E7 store block: E1 client histories (forgetful clients, so tokens and items are freed and their addresses re-used) run twice in one interpreter and, every 4th, in a fresh interpreter with another hash seed / heap pre-fill; operation logs compared exactly. E7: E3 model specs (>=120 time units) each run twice in one interpreter, once unmonitored, and in 2 fresh interpreters with PYTHONHASHSEED 1 / 4242 and different heap pre-fill; "
            "logs (time, edge, op, item) and final statistics compared exactly; clock monotonicity checked at every kernel step; non-trivial = spec uses RANDOM policies / random delays or a conveyor and logged >=200 item movements",
     "C12": "E4: scripted producer/consumer on one conveyor (continuous/slotted x accumulating/not; integer belt lengths that are multiples of the item length, plus a 'ragged' geometry class; regular/bursty/irregular/saturating arrivals; eager/stalling consumers; a class with items of mixed lengths on one belt) + conveyor edges of E3 factories + hostile multi-client E1 histories on belt stores (tokens held across time, cancels); "
            "non-trivial = >=8 items and (a put and a get in one instant, or >=4 undisturbed journeys checked for exact travel time); distinct by operation-log / spec hash",
